@@ -392,9 +392,10 @@ FORCED = [
     ("flags", 512, 40, "middle", "wal", 0),
     # a TEXT / BLOB first column whose serial type SURVIVES in the freeblock: the row id takes two bytes (128..16383), so
     # the first serial type is the fifth byte of the cell, behind the freeblock header
-    ("textvar_int", 1024, 160, "last", "db", 0),
-    ("blob_text_int", 4096, 160, "last", "wal", 0),
-    ("text5_int", 512, 160, "two_apart", "db", 0),
+    # (not the last row: a freed cell at the start of the content area becomes unallocated space, not a freeblock)
+    ("textvar_int", 1024, 320, "two_apart", "db", 0),
+    ("blob_text_int", 4096, 320, "middle", "wal", 0),
+    ("text5_int", 512, 320, "two_apart", "db", 0),
 ]
 
 
